@@ -228,7 +228,8 @@ impl StringPool {
             self.strings.iter_mut().enumerate()
         {
             if *refcount == 0 {
-                debug_assert_eq!(st, "");
+                // (A malformed file can have leftover text in an unused
+                // entry; it is simply overwritten.)
                 *st = string;
                 *refcount = 1;
                 self.is_modified = true;
@@ -293,19 +294,17 @@ impl StringPool {
         Ok(())
     }
 
-    /// Decrements the refcount of a string in the pool.
+    /// Decrements the refcount of a string in the pool.  References that
+    /// don't correspond to a live string (which can only come from a
+    /// malformed file: `get` reads them as the empty string) are ignored.
     pub fn decref(&mut self, string_ref: StringRef) {
         let index = string_ref.index();
         if index >= self.strings.len() {
-            panic!(
-                "decref: string_ref {} invalid, pool has only {} entries",
-                string_ref.number(),
-                self.strings.len()
-            );
+            return;
         }
         let (ref mut string, ref mut refcount) = self.strings[index];
         if *refcount < 1 {
-            panic!("decref: string refcount is already zero");
+            return;
         }
         self.is_modified = true;
         *refcount -= 1;
